@@ -83,9 +83,10 @@ def make(name: str, *args):
     if name in ("C05", "C09", "C12"):
         weights = {"C05": (3, 2), "C09": (3, 2), "C12": (3, 2)}[name]
         parts = [(weights[0], WorldScenario(name)), (weights[1], ConcatScenario(name))]
-        if name == "C12":
+        if name in ("C12", "C09"):
             from .survey import SurveyScenario
 
-            parts.append((1, SurveyScenario("C12")))     # copies of linked surveys (all survey class pairs)
+            # C12: copies of linked surveys (all survey class pairs); C09: an edit through one pair leaves the others' stored metadata alone
+            parts.append((1, SurveyScenario(name)))
         return Mix(name, parts)
     raise KeyError(f"no scenario for {name}")
